@@ -281,6 +281,58 @@ def small_starts(res, ctx, rng, names):
         res.case(('small-starts', name))
 
 
+def flag_and_opcode_starts(res, ctx, rng, names):
+    """The result part against WELL-FORMED operation / flag words in the START record: one flag bit (bit 8..31) over a small
+    opcode (0..7) - 0x01000002, 0x00010001, 0x80000003 ... are what lock, wait, control and option calls are passed; boundary
+    values, 0 / 1 patterns and random 64-bit words never look like them.  Every decoder x every such word in argument 0
+    (and one per bit in the others) x END records that succeed with a small negative, a zero or a small return word or
+    fail: the result part is the one the same END record gives after the decoder's plain START, an errno is shown exactly
+    when the error word is non-zero."""
+    ends = ((0, 0xfffffffc, 0, 0), (0, 0xfffffffffffffffc, 0, 0), (0, 3, 0, 0), (4, 0xfffffffc, 0, 0))
+    for name in names:
+        spec = domain.TABLE.get(name, {})
+        base = domain.gen_words(rng, name, 'S')
+        parser = ev.new_parser()
+        ts = 1000
+        want = {}
+        words = [(0, (1 << k) | s) for k in range(8, 32) for s in range(8)] + \
+                [(j, (1 << k) | 2) for j in (1, 2, 3) for k in range(8, 32)]
+        for j, w in [(None, None)] + words:
+            if j is not None and (('S', j) in spec or (name in ('BSC_setsockopt', 'BSC_getsockopt') and j in (1, 2))):
+                continue
+            start = list(base)
+            if j is not None:
+                start[j] = w
+            for end in ends:
+                ts += 14
+                try:
+                    parser.feed(ev.mk(ts, name, 1, start, 6))
+                    t = parser.feed(ev.mk(ts + 7, name, 2, end, 6))
+                    text = str(t) if t is not None else None
+                except Exception as x:
+                    res.violation(f'c10-raises-{core.exc_name(x)}', f'{name} START {start} END {list(end)}: {x!r}',
+                                  {'name': name, 'start': start, 'end': list(end)})
+                    return
+                res.count('flag_and_opcode_start_renderings')
+                part = split_result(text)[1] if text else None
+                if j is None:
+                    want[end] = part
+                    continue
+                m = SMALL_ERRNO_RE.search(part or '')
+                shown = int(m.group(1) or m.group(2)) if m else None
+                if text is None or (name not in DECLARED_EXCLUSIONS and shown != (end[0] or None)):
+                    res.violation('c10-error-word-not-shown' if end[0] else 'c10-errno-on-success',
+                                  f'{name}: START {[hex(x) for x in start]}, END {[hex(x) for x in end]}: the line reads {text!r}',
+                                  {'name': name, 'start': start, 'end': list(end)})
+                    return
+                if part != want[end]:
+                    res.violation('c10-result-depends-on-start-or-nesting', f'{name}: END {[hex(x) for x in end]} gives the result '
+                                  f'part {part!r} after START {[hex(x) for x in start]} and {want[end]!r} after START '
+                                  f'{[hex(x) for x in base]}', {'name': name, 'start': start, 'end': list(end)})
+                    return
+        res.case(('flag-and-opcode-starts', name))
+
+
 def renumbered_tables(res, ctx, rng, names):
     """Two code tables in one process that give ONE event id to two different calls: the bundled one, and a supplied one
     in which two calls have swapped ids (a release that renumbers them).  Calls whose results are formatted in a way of
@@ -418,6 +470,7 @@ def run(ctx):
     if mine:
         scale_windows(res, ctx, rng, mine)
         small_starts(res, ctx, rng, mine)
+        flag_and_opcode_starts(res, ctx, rng, mine)
     stream.run_all(res, 'c10', STREAM_CASES, rng, 'result renderings', ctx)
     for _ in range(ctx.pick(2, 8)):
         shared_front_end(res, ctx, rng)
@@ -437,6 +490,7 @@ def run(ctx):
     res.require('decoders_checked', 50)
     res.require('long_windows', 20)
     res.require('scale_windows', 10)
+    res.require('flag_and_opcode_start_renderings', 10000)
     res.require('boundary_return_words_checked', 200)
     res.require('stream_windows_one_thread', 20)
     res.require('file_windows_v3', 20)
